@@ -1,7 +1,8 @@
 import CoapVerif.Lemmas.Uri
 import CoapVerif.Lemmas.UriSplit
+import CoapVerif.Lemmas.UriOpts
 /-
-C16 — URI text and CoAP options convert both ways without loss, confusion or overread.
+C16 — [99, 111, 97, 112, 58, 47, 47, 69, 88, 65, 77, 80, 76, 69, 46, 99, 111, 109, 58, 49, 50, 51, 52, 47, 46, 46, 47, 120, 47, 37, 50, 101, 47, 121, 37, 50, 70, 122, 63, 97, 38, 98, 37, 50, 54] text and CoAP options convert both ways without loss, confusion or overread.
 
   S = Coap.Spec.Uri   (RFC 3986 §2.1/§3/§5.2.4, RFC 7252 §6.4/§6.5; CoapVerif/Spec/Uri.lean, SPEC DECISIONS there)
   M = Coap.MU         (transcription of src/coap_uri.c after the fix: commits; CoapVerif/Model/Uri.lean)
@@ -170,13 +171,13 @@ example : getUriPath [[], []] = R.ok [0x2f] ∧ getUriPath [[]] = R.ok [] ∧ ge
 
 def toParts (u : MU.Uri) : UriParts := ⟨u.scheme, u.host, u.port, u.path, u.query⟩
 
-/-- M and S agree on one URI string (accept / reject and every field) -/
+/-- M and S agree on one [99, 111, 97, 112, 58, 47, 47, 69, 88, 65, 77, 80, 76, 69, 46, 99, 111, 109, 58, 49, 50, 51, 52, 47, 46, 46, 47, 120, 47, 37, 50, 101, 47, 121, 37, 50, 70, 122, 63, 97, 38, 98, 37, 50, 54] string (accept / reject and every field) -/
 def agree (proxy : Bool) (s : Bytes) : Prop :=
   (MU.splitUriSub proxy s).toOption.map toParts = Spec.Uri.splitUri Generated.Uri.schemes proxy s
 
 instance (proxy : Bool) (s : Bytes) : Decidable (agree proxy s) := by unfold agree; infer_instance
 
-/-- PARTIAL.  Full statement (not proved; compared on every run by the differential test on generated URIs, hosts
+/-- PARTIAL.  Full statement (not proved; compared on every run by the differential test on generated [99, 111, 97, 112, 58, 47, 47, 69, 88, 65, 77, 80, 76, 69, 46, 99, 111, 109, 58, 49, 50, 51, 52, 47, 46, 46, 47, 120, 47, 37, 50, 101, 47, 121, 37, 50, 70, 122, 63, 97, 38, 98, 37, 50, 54]s, hosts
 naming a Unix socket excluded, D16f):
   `split_uri_eq_spec : ∀ proxy s, ¬ unixHost s → agree proxy s`
 i.e. coap_split_uri accepts exactly the strings RFC 3986 §3 / RFC 7252 §6 structure (D4) admits — scheme from the
@@ -223,7 +224,7 @@ theorem split_uri_eq_spec (proxy : Bool) (s : Bytes) (hu : unixAuthority s = fal
   | none => rfl
   | some parts => rfl
 
-/-- malformed URIs are rejected: coap_split_uri returns an error exactly when S does not accept the string -/
+/-- malformed [99, 111, 97, 112, 58, 47, 47, 69, 88, 65, 77, 80, 76, 69, 46, 99, 111, 109, 58, 49, 50, 51, 52, 47, 46, 46, 47, 120, 47, 37, 50, 101, 47, 121, 37, 50, 70, 122, 63, 97, 38, 98, 37, 50, 54]s are rejected: coap_split_uri returns an error exactly when S does not accept the string -/
 theorem split_uri_rejects_malformed (proxy : Bool) (s : Bytes) (hu : unixAuthority s = false) :
     MU.splitUriSub proxy s = R.rej ↔ Spec.Uri.splitUri Generated.Uri.schemes proxy s = none := by
   rw [(split_uri_eq_spec proxy s hu).2]
@@ -324,5 +325,102 @@ example : Spec.Uri.splitQuery [97, 38, 98, 37, 50, 54, 99] = some [[97], [98, 38
     MU.splitQuery [97, 38, 98, 37, 50, 54, 99] 12 = R.ok [[97], [98, 38, 99]] := by decide
 -- below the minimum what does not fit is silently omitted (D16b): "aaa/bbbbb/c" in 7 bytes gives "aaa", "c"
 example : MU.splitPath [97, 97, 97, 47, 98, 98, 98, 98, 98, 47, 99] 7 = R.ok [[97, 97, 97], [99]] := by decide
+
+-- the bound the header documents (length + 2 per segment) is one byte short for a segment of ≥ 269 bytes:
+-- 269 × 'a' in 271 bytes is silently omitted, 272 = 269 + 2·1 + 1 bytes hold it
+set_option maxRecDepth 100000 in
+example : MU.splitPath (List.replicate 269 97) 271 = R.ok [] ∧
+    MU.splitPath (List.replicate 269 97) 272 = R.ok [List.replicate 269 97] := by decide
+
+/-! ### coap_uri_into_optlist: RFC 7252 §6.4 steps 5–9 -/
+
+theorem toParts_eq : toParts = partsOf := rfl
+
+/-- (P1, coap_uri_into_optlist(uri, dst, &chain, 1)) for every parsed [99, 111, 97, 112, 58, 47, 47, 69, 88, 65, 77, 80, 76, 69, 46, 99, 111, 109, 58, 49, 50, 51, 52, 47, 46, 46, 47, 120, 47, 37, 50, 101, 47, 121, 37, 50, 70, 122, 63, 97, 38, 98, 37, 50, 54] on which S is defined — host not a Unix
+socket (D16f), escapes of the host (if it is emitted), the path and the query well formed — the option chain is
+exactly RFC 7252 §6.4's: Uri-Host (percent-decoded, lower case, D16g) unless the [99, 111, 97, 112, 58, 47, 47, 69, 88, 65, 77, 80, 76, 69, 46, 99, 111, 109, 58, 49, 50, 51, 52, 47, 46, 46, 47, 120, 47, 37, 50, 101, 47, 121, 37, 50, 70, 122, 63, 97, 38, 98, 37, 50, 54] has no authority or the host
+is the destination address literal `dst` (an IPv6 zone identifier not counting), Uri-Port (minimal big-endian)
+unless the port is the default of the [99, 111, 97, 112, 58, 47, 47, 69, 88, 65, 77, 80, 76, 69, 46, 99, 111, 109, 58, 49, 50, 51, 52, 47, 46, 46, 47, 120, 47, 37, 50, 101, 47, 121, 37, 50, 70, 122, 63, 97, 38, 98, 37, 50, 54]'s scheme, then one Uri-Path per path segment and one Uri-Query per query
+argument as `split_path_eq_spec` / `split_query_eq_spec` describe them, none for an empty path / query.
+`scheme < 8` and `port < 65536` are the ranges of the C types (enum coap_uri_scheme_t, uint16_t). -/
+theorem uri_into_optlist_eq_spec (dst : Bytes) (u : MU.Uri) (opts : List (Nat × Bytes)) (hs : u.scheme < 8)
+    (hp : u.port < 65536) (h : uriOptions Generated.Uri.schemes dst (toParts u) = some opts) :
+    uriIntoOptlist dst u = R.ok opts := uriIntoOptlist_eq dst u opts hs hp h
+
+/-- (P1, end to end: coap_split_uri / coap_split_proxy_uri, then coap_uri_into_optlist) for **every** byte string
+that S accepts as a [99, 111, 97, 112, 58, 47, 47, 69, 88, 65, 77, 80, 76, 69, 46, 99, 111, 109, 58, 49, 50, 51, 52, 47, 46, 46, 47, 120, 47, 37, 50, 101, 47, 121, 37, 50, 70, 122, 63, 97, 38, 98, 37, 50, 54] and whose options S defines, libcoap accepts it with S's fields and builds exactly S's
+options. -/
+theorem uri_to_options_eq_spec (dst : Bytes) (proxy : Bool) (s : Bytes) (parts : UriParts) (opts : List (Nat × Bytes))
+    (hS : Spec.Uri.splitUri Generated.Uri.schemes proxy s = some parts)
+    (hO : uriOptions Generated.Uri.schemes dst parts = some opts) :
+    ∃ u, MU.splitUriSub proxy s = R.ok u ∧ toParts u = parts ∧ uriIntoOptlist dst u = R.ok opts := by
+  have ⟨i1, i2, _, _, i5⟩ := splitUri_inv proxy s parts hS
+  have hux : unixHost parts.host = false := by
+    cases hh : unixHost parts.host with
+    | false => rfl
+    | true => simp [uriOptions, hh] at hO
+  have hua : unixAuthority s = false := by
+    cases hh : unixAuthority s with
+    | false => rfl
+    | true =>
+      have := i5 hh
+      simp [unixHost, this] at hux
+  refine ⟨uriOf parts, ?_, rfl, ?_⟩
+  · rw [(split_uri_eq_spec proxy s hua).2, hS]
+  · exact uriIntoOptlist_eq dst (uriOf parts) opts i1 i2 hO
+
+/-- S's options are defined for every accepted [99, 111, 97, 112, 58, 47, 47, 69, 88, 65, 77, 80, 76, 69, 46, 99, 111, 109, 58, 49, 50, 51, 52, 47, 46, 46, 47, 120, 47, 37, 50, 101, 47, 121, 37, 50, 70, 122, 63, 97, 38, 98, 37, 50, 54] except for the two cases S leaves open: a Unix-socket host
+(D16f) and an emitted host with a malformed escape (D4) — path and query of an accepted [99, 111, 97, 112, 58, 47, 47, 69, 88, 65, 77, 80, 76, 69, 46, 99, 111, 109, 58, 49, 50, 51, 52, 47, 46, 46, 47, 120, 47, 37, 50, 101, 47, 121, 37, 50, 70, 122, 63, 97, 38, 98, 37, 50, 54] always split. -/
+theorem uri_options_defined (dst : Bytes) (proxy : Bool) (s : Bytes) (parts : UriParts)
+    (hS : Spec.Uri.splitUri Generated.Uri.schemes proxy s = some parts) (hux : unixHost parts.host = false)
+    (hh : parts.host = [] ∨ hostAddr parts.host = dst ∨ Spec.Uri.escapesOk parts.host = true) :
+    ∃ opts, uriOptions Generated.Uri.schemes dst parts = some opts := by
+  have ⟨_, _, i3, i4, _⟩ := splitUri_inv proxy s parts hS
+  have hp : ∃ ps, pathOptions parts.path = some ps := by
+    unfold pathOptions
+    by_cases e : parts.path = []
+    · exact ⟨[], by simp [e]⟩
+    · obtain ⟨ps, h⟩ := splitPath_defined _ i3
+      exact ⟨ps, by simp [e, h]⟩
+  have hq : ∃ qs, queryOptions parts.query = some qs := by
+    unfold queryOptions
+    by_cases e : parts.query = []
+    · exact ⟨[], by simp [e]⟩
+    · obtain ⟨qs, h⟩ := splitQuery_defined _ i4
+      exact ⟨qs, by simp [e, h]⟩
+  have hho : ∃ ho, hostOption dst parts.host = some ho := by
+    unfold hostOption
+    by_cases e : parts.host = [] ∨ hostAddr parts.host = dst
+    · exact ⟨[], by simp [e]⟩
+    · have : Spec.Uri.escapesOk parts.host = true := by
+        rcases hh with h | h | h
+        · exact absurd (Or.inl h) e
+        · exact absurd (Or.inr h) e
+        · exact h
+      unfold Spec.Uri.escapesOk at this
+      cases hd : pctDecode parts.host with
+      | none => simp [hd] at this
+      | some d => exact ⟨[(3, d.map lowerAscii)], by simp [e]⟩
+  obtain ⟨ps, hp⟩ := hp
+  obtain ⟨qs, hq⟩ := hq
+  obtain ⟨ho, hho⟩ := hho
+  refine ⟨ho ++ portOption Generated.Uri.schemes parts.scheme parts.port ++ ps.map (fun v => (11, v)) ++ qs.map (fun v => (15, v)), ?_⟩
+  simp only [uriOptions, hux, hp, hq, hho, Bool.false_eq_true, if_false]
+
+-- "coap://EXAMPLE.com:1234/../x/%2e/y%2Fz?a&b%26" sent to 192.0.2.1: Uri-Host "example.com", Uri-Port 1234, Uri-Path "x", "y/z",
+-- Uri-Query "a", "b&"  (S defined, M equal)
+example :
+    (Spec.Uri.splitUri Generated.Uri.schemes false [99, 111, 97, 112, 58, 47, 47, 69, 88, 65, 77, 80, 76, 69, 46, 99, 111, 109, 58, 49, 50, 51, 52, 47, 46, 46, 47, 120, 47, 37, 50, 101, 47, 121, 37, 50, 70, 122, 63, 97, 38, 98, 37, 50, 54]).bind (uriOptions Generated.Uri.schemes [49, 57, 50, 46, 48, 46, 50, 46, 49]) =
+      some [(3, [101, 120, 97, 109, 112, 108, 101, 46, 99, 111, 109]), (7, [4, 210]), (11, [120]), (11, [121, 47, 122]), (15, [97]), (15, [98, 38])] ∧
+    (match MU.splitUriSub false [99, 111, 97, 112, 58, 47, 47, 69, 88, 65, 77, 80, 76, 69, 46, 99, 111, 109, 58, 49, 50, 51, 52, 47, 46, 46, 47, 120, 47, 37, 50, 101, 47, 121, 37, 50, 70, 122, 63, 97, 38, 98, 37, 50, 54] with
+     | .ok u => uriIntoOptlist [49, 57, 50, 46, 48, 46, 50, 46, 49] u
+     | _ => R.rej) =
+      R.ok [(3, [101, 120, 97, 109, 112, 108, 101, 46, 99, 111, 109]), (7, [4, 210]), (11, [120]), (11, [121, 47, 122]), (15, [97]), (15, [98, 38])] := by decide
+-- "coaps://192.0.2.1:5684/a" sent to 192.0.2.1: neither Uri-Host nor Uri-Port
+example : (Spec.Uri.splitUri Generated.Uri.schemes false [99, 111, 97, 112, 115, 58, 47, 47, 49, 57, 50, 46, 48, 46, 50, 46, 49, 58, 53, 54, 56, 52, 47, 97]).bind (uriOptions Generated.Uri.schemes [49, 57, 50, 46, 48, 46, 50, 46, 49]) =
+    some [(11, [97])] := by decide
+-- "coap://[fe80::1%25eth0]/" sent to fe80::1: the zone identifier does not count, no option at all
+example : (Spec.Uri.splitUri Generated.Uri.schemes false [99, 111, 97, 112, 58, 47, 47, 91, 102, 101, 56, 48, 58, 58, 49, 37, 50, 53, 101, 116, 104, 48, 93, 47]).bind (uriOptions Generated.Uri.schemes [102, 101, 56, 48, 58, 58, 49]) =
+    some [] := by decide
 
 end Coap.C16
